@@ -108,7 +108,9 @@ func systemWrites(r *rep.Report, e rep.Env) {
 func triggered(r *rep.Report, e rep.Env) {
 	for round := 0; round < e.Pick(16, 100); round++ {
 		kind := drv.Kinds[round%2]
-		loc, err := drv.NewLoc("T", kind, drv.MustMem())
+		T := fmt.Sprintf("T%d", round%3) // names and ids vary from round to round: nothing of an earlier run may show
+		once := fmt.Sprintf("once%d", round)
+		loc, err := drv.NewLoc(T, kind, drv.MustMem())
 		if err != nil {
 			r.Violate("", "cannot build location", nil)
 			return
@@ -129,7 +131,7 @@ func triggered(r *rep.Report, e rep.Env) {
 			r.Violate("", "AddRule failed: "+err.Error(), nil)
 			continue
 		}
-		if _, err := loc.AddRule(ctx, "once", mk(map[string]interface{}{"schedule": "+1h"})); err != nil {
+		if _, err := loc.AddRule(ctx, once, mk(map[string]interface{}{"schedule": "+1h"})); err != nil {
 			r.Violate("", "AddRule (one-shot) failed: "+err.Error(), nil)
 			continue
 		}
@@ -160,10 +162,10 @@ func triggered(r *rep.Report, e rep.Env) {
 			ev                      core.Map
 		}
 		for _, c := range []tc{
-			{"ordinary event", "r1@T#0,r1@T#1", "r1", core.Map{"k": "go"}},
-			{"trigger event", "r1@T#0,r1@T#1", "r1", core.Map{"trigger!": "r1", "k": "go"}},
-			{"embedded rule", "embedded@T#0,embedded@T#1", "embedded", core.Map{"evaluate!": map[string]interface{}(mk(map[string]interface{}{"when": map[string]interface{}{"pattern": map[string]interface{}{"k": "?any"}}})), "k": "go"}},
-			{"trigger of a one-shot rule", "once@T#0,once@T#1", "once", core.Map{"trigger!": "once"}},
+			{"ordinary event", "r1@" + T + "#0,r1@" + T + "#1", "r1", core.Map{"k": "go"}},
+			{"trigger event", "r1@" + T + "#0,r1@" + T + "#1", "r1", core.Map{"trigger!": "r1", "k": "go"}},
+			{"embedded rule", "embedded@" + T + "#0,embedded@" + T + "#1", "embedded", core.Map{"evaluate!": map[string]interface{}(mk(map[string]interface{}{"when": map[string]interface{}{"pattern": map[string]interface{}{"k": "?any"}}})), "k": "go"}},
+			{"trigger of a one-shot rule", once + "@" + T + "#0," + once + "@" + T + "#1", once, core.Map{"trigger!": once}},
 		} {
 			r.Journal(rep.J{"triggered_round": round, "case": c.name, "body_id": bodyId})
 			fr, cond := loc.ProcessEvent(drv.Ctx(), c.ev)
@@ -182,7 +184,7 @@ func triggered(r *rep.Report, e rep.Env) {
 				r.Violate("", c.name+": the work tree names another rule than the one that ran", wit)
 			}
 		}
-		if _, err := loc.GetRule(drv.Ctx(), "once"); err == nil {
+		if _, err := loc.GetRule(drv.Ctx(), once); err == nil {
 			r.Violate("", "a one-shot rule is still stored after its triggered run", rep.J{"state": kind, "rule_body_id": bodyId})
 		}
 		if _, err := loc.GetRule(drv.Ctx(), "r1"); err != nil {
@@ -267,6 +269,7 @@ func main() {
 		var rules []rspec
 		nr := g.Intn(5)
 		anyFail, anySerial := false, false
+		serialRuleFails := false // some serial rule has a failing action: the walk may stop there (order dependent)
 		for i := 0; i < nr; i++ {
 			rs := rspec{Id: fmt.Sprintf("r%d", i)}
 			switch g.Intn(4) {
@@ -296,6 +299,13 @@ func main() {
 			}
 			rs.Serial = g.Intn(5) == 0
 			anySerial = anySerial || rs.Serial
+			if rs.Serial {
+				for _, a := range rs.Actions {
+					if a != "ok" {
+						serialRuleFails = true
+					}
+				}
+			}
 			if _, err := loc.AddRule(drv.Ctx(), rs.Id, rs.toMap()); err != nil {
 				r.Violate("", "AddRule failed: "+err.Error(), rep.J{"rule": rs})
 				continue
@@ -366,7 +376,9 @@ func main() {
 			r.Count("failing_executions_expected", wantFail)
 			wit := rep.J{"state": kind, "rules": rules, "facts": facts, "event": ev, "expected": want, "expected_failing": wantFail,
 				"out_channel": outs, "tree_complete": tree, "tree_failed": treeFail, "values": vals, "condition": cond}
-			serialFail := anySerial && anyFail
+			// only a failing action of a SERIAL rule may stop the walk; failing actions of other rules
+			// (next to serial rules whose actions all succeed) stop nothing
+			serialFail := serialRuleFails
 			if !ref.SameSet(outs, tree) && !anyFail {
 				r.Violate("", "side effects (Env.out) and work tree disagree about which actions ran", wit)
 				continue
